@@ -441,7 +441,7 @@ func genSubCase(t *rapid.T) SubCase {
 	}
 	if c.Form == "update" {
 		if rapid.IntRange(0, 3).Draw(t, "where") > 0 {
-			c.Where = sqlgen.Expr(t, sqlgen.Opts{Dialect: sqlgen.MySQL}, rapid.IntRange(1, 3).Draw(t, "wheredepth"))
+			c.Where = sqlgen.Expr(t, sqlgen.Opts{RawByteNames: true, Dialect: sqlgen.MySQL}, rapid.IntRange(1, 3).Draw(t, "wheredepth"))
 		}
 		c.Tail = rapid.SampledFrom([]string{"", "", "limit 3", "order by id desc limit 1", "order by data"}).Draw(t, "tail")
 	}
